@@ -24,14 +24,15 @@ CHUNK = 48
 STUBS = ["asyncio.open_connection -> FakeNet (per attempt: refuse or accept after a latency, by script)",
          "writer.drain() raises OSError when the script's symbolic fault bit for that write is set",
          "loop -> VLoop (virtual time)"]
-OUTSIDE = ["more than 2 (quick) / 3 (thorough) messages, more than 4 / 5 faultable writes, more than 3 reconnect episodes",
+OUTSIDE = ["more than 2 (quick) / 3 (thorough) messages, more than 4 / 7 faultable writes, more than 3 reconnect episodes, retry counts above 2 (quick) / 3 (thorough)",
            "write faults raised by write() itself rather than by drain()"]
 ASSUMPTIONS = ["a frame counts as 'put on the wire' when its bytes reach the transport's write(), even if the following drain() fails"]
 
 
 def bounds(tier):
-    return {"messages": 2 if tier == "quick" else 3, "faultable_writes": 4 if tier == "quick" else 5,
-            "lifetimes": "(0,8] symbolic", "reconnect_latency": "[0,3] symbolic", "retries": [0, 1, 2]}
+    return {"messages": 2 if tier == "quick" else 3, "faultable_writes": 4 if tier == "quick" else 7,
+            "lifetimes": "(0,8] symbolic", "reconnect_latency": "[0,3] symbolic", "retries": [0, 1, 2] if tier == "quick" else [0, 1, 2, 3],
+            "submission_instants": "fixed 0.5 s apart" if tier == "quick" else "fixed 0.5 s apart; free in [1,4] for the second message in four instances per generation"}
 
 
 def instances(tier):
@@ -41,11 +42,19 @@ def instances(tier):
             out.append({"kind": "single_fault", "gen": g, "retries": r0, "second": False})
         out.append({"kind": "single_fault", "gen": g, "retries": 1, "second": True})
         out.append({"kind": "single_fault", "gen": g, "retries": 2, "second": True})
-    nf = 4 if tier == "quick" else 5
+    nf = 4 if tier == "quick" else 6
     for g in (4, 5) if tier == "thorough" else (4,):
-        for rs in ([(2, 0), (1, 1)] if tier == "quick" else [(2, 0), (1, 1), (0, 2), (2, 2)]):
+        pairs = [(2, 0), (1, 1)] if tier == "quick" else [(a, b) for a in (0, 1, 2) for b in (0, 1, 2)] + [(3, 1), (0, 3)]
+        for rs in pairs:
             out.append({"kind": "faults", "gen": g, "retries": list(rs), "nfaults": nf, "refuse": False})
         out.append({"kind": "faults", "gen": g, "retries": [2, 1], "nfaults": 3, "refuse": True})
+        if tier == "thorough":
+            for rs in [(2, 1, 0), (1, 1, 1), (0, 2, 1), (2, 2, 2), (3, 0, 1)]:
+                out.append({"kind": "faults", "gen": g, "retries": list(rs), "nfaults": 7, "refuse": False})
+            for rs in [(2, 2), (1, 2), (3, 0)]:
+                out.append({"kind": "faults", "gen": g, "retries": list(rs), "nfaults": 5, "refuse": True})
+            for rs in [(2, 1), (1, 2), (0, 0), (2, 2)]:
+                out.append({"kind": "faults", "gen": g, "retries": list(rs), "nfaults": 4, "refuse": False, "symt": True})
     for g in (4, 5):
         out.append({"kind": "queued_fault", "gen": g, "retries": 1})
         out.append({"kind": "queued_fault", "gen": g, "retries": 2})
@@ -177,7 +186,10 @@ def _faults(ctx, p):
     k = len(rs)
     N = p["nfaults"]
     Ls = [ctx.real(f"L{i}", 0, 8, lo_strict=True) for i in range(k)]
-    ts = [1.0 + 0.5 * i for i in range(k)]
+    if p.get("symt"):
+        ts = [1.0] + [ctx.real(f"ts{i}", 1, 4) for i in range(1, k)]      # later submissions at free instants (any order among themselves)
+    else:
+        ts = [1.0 + 0.5 * i for i in range(k)]
     faults = [ctx.bool(f"fault{j}") for j in range(N)]
     lat = ctx.real("lat", 0, 3)
     with Rig(ctx, g) as rig:
